@@ -378,14 +378,23 @@ def judge(cfg, req, ob):
     return 'performed:' + '+'.join(done), None
 
 
-def eval_config(w, cfg, reqs):
-    """Runs the request product under the loaded configuration.  Returns (transcript, bad [(req, text)], classes, problems)."""
+class DeadlineCut(Exception):
+    pass
+
+
+def eval_config(w, cfg, reqs, t_end=None):
+    """Runs the request product under the loaded configuration.  Returns (transcript, bad [(req, text)], classes, problems).
+    Raises DeadlineCut when the tier deadline passes in the middle (a configuration costs up to 16 instance restarts)."""
+    def check_time():
+        if t_end is not None and time.time() > t_end:
+            raise DeadlineCut()
     obs = [None] * len(reqs)
     probs = []
     plain = [i for i, r in enumerate(reqs) if not names_shutdown(r)]
     B = 32
     for k in range(0, len(plain), B):
         idx = plain[k:k + B]
+        check_time()
         out, log = w.run_batch([reqs[i] for i in idx])
         probs += w.problems(log)
         if SHUTDOWN_LOG.search(log) or not w.sq.alive():
@@ -404,6 +413,7 @@ def eval_config(w, cfg, reqs):
     for i, r in enumerate(reqs):
         if not names_shutdown(r):
             continue
+        check_time()
         o, log = w.run_batch([r])
         probs += w.problems(log)
         o[0]['shutdown'] = w.shutdown_performed(log)
@@ -437,8 +447,9 @@ def confirm(ctx, shard, cfg, req):
 
 ASSUME = ['the real squid binary (ASan build of the current tree) runs under the lock-step/virtual-time shim; the driver plays the '
           'clients (bound to 127.0.0.1 / 127.0.0.2)',
-          'configurations after the first of an instance are loaded with SIGHUP; per shard one configuration is also started on a fresh '
-          'instance and must give the same transcript; after every performed shutdown a fresh instance is started',
+          'configurations after the first of an instance are loaded with SIGHUP; per shard one configuration is run both on an instance '
+          'started directly with it and after a reconfiguration (thorough: two separate instances) and must give the same transcript; '
+          'after every performed shutdown a fresh instance is started',
           'reports are recognised by text markers of the info, menu and config reports; other actions are outside the bound',
           'when two cachemgr_passwd lines cover the same action the documentation does not define precedence: the oracle accepts what '
           'either line permits (Squid uses the first covering line)']
@@ -460,7 +471,12 @@ def make_worker(ctx):
                'shutdowns': 0, 'refused_401': 0, 'refused_403': 0, 'watchdog_retries': 0,
                'performed_under_conflicting_lines': 0, 'of_these_permitted_by_first_line': 0}
         det = {}
-        if items:
+        first_tr = None
+        if ctx.quick and items:
+            # quick: no separate instance; the shard starts its instance directly with its cheapest configuration (the list is
+            # sorted by restart cost), and loads it once more by reconfiguration after the sweep: same transcript required
+            items = [items[-1]] + items[:-1]
+        elif items:
             i = len(items) // 2
             for attempt in range(2):
                 w0 = MWorld(ctx, shard, name='d%d' % shard)
@@ -492,7 +508,13 @@ def make_worker(ctx):
                         else:
                             w.reconfigure(cfg)
                         since += 1
-                        tr, bad, classes, probs = eval_config(w, cfg, REQUESTS)
+                        direct = (w.reconfigs == 0)
+                        tr, bad, classes, probs = eval_config(w, cfg, REQUESTS, t_end + 15)
+                        if ctx.quick and n == 0 and direct:
+                            first_tr = tr
+                        break
+                    except DeadlineCut:
+                        tr = None
                         break
                     except HarnessError as e:
                         if attempt or 'watchdog' not in str(e):
@@ -503,6 +525,9 @@ def make_worker(ctx):
                         w.stop()
                         res['kicks'] += w.kicks
                         w = MWorld(ctx, shard)
+                if tr is None:
+                    res['deadline_hit'] = True
+                    break
                 res['configs'] += 1
                 res['evaluations'] += len(REQUESTS)
                 if n in det:
@@ -558,6 +583,18 @@ def make_worker(ctx):
                 if len(res['violations']) >= MAX_VIOLATIONS_PER_SHARD:
                     res['deadline_hit'] = True
                     break
+            if first_tr is not None and len(items) > 1 and not res['deadline_hit'] and not res['violations'] and w.sq is not None \
+                    and time.time() < t_end:
+                try:
+                    w.reconfigure(items[0])
+                    tr2 = eval_config(w, items[0], REQUESTS, t_end + 15)[0]
+                    if tr2 != first_tr:
+                        diff = [(req_key(r), a, b) for r, a, b in zip(REQUESTS, first_tr, tr2) if a != b]
+                        raise HarnessError('nondeterminism: configuration [%s] gave different transcripts when started directly and when '
+                                           'loaded by reconfiguration: %r' % (cfg_key(items[0]), diff[:5]))
+                    res['det_checked'] += 1
+                except DeadlineCut:
+                    res['deadline_hit'] = True
         finally:
             w.stop()
             res['starts'] += w.starts
@@ -602,7 +639,7 @@ def run(ctx):
                 raise HarnessError('vacuity guard: the %s report was never delivered: %r' % (a, perf))
         if tot('shutdowns') == 0 or tot('refused_401') == 0 or tot('refused_403') == 0:
             raise HarnessError('vacuity guard: shutdowns %d, 401 %d, 403 %d' % (tot('shutdowns'), tot('refused_401'), tot('refused_403')))
-        if tot('det_checked') < len(parts):
+        if tot('det_checked') < len([p for p in parts if p['configs'] > 1]) and not tot('watchdog_retries'):
             raise HarnessError('determinism obligation not exercised in every shard')
     samples = []
     for p in parts:
